@@ -28,7 +28,7 @@ EDGES_B = [0.1, 0.3, 0.6, 1.0]  # same bin count
 EDGES_C = [0.1, 0.55, 1.0]  # other bin count
 WORKLOADS = [
     "create_fresh", "create_overwrite", "create_buffered", "reopen_compute_meta", "trees_fresh", "trees_other_edges", "trees_other_closed",
-    "trees_other_count", "trees_forced", "trees_unbinned_over_binned", "measure_over_cached",
+    "trees_other_count", "trees_forced", "trees_forced_other_edges", "trees_unbinned_over_binned", "measure_over_cached",
     "corrfunc_file_fresh", "corrfunc_file_over_old", "corrdata_files_fresh", "corrdata_files_over_old",
     "histdata_files_over_old", "config_file_fresh", "config_file_over_old",
 ]
@@ -97,8 +97,8 @@ class C08(Check):
         "in a forked process: Catalog(dir) must raise or hold exactly the old or the new record set; measurements with the "
         "interrupted and with the previously cached configuration must raise or equal the fresh-cache result; result files "
         "must raise or read back as exactly the old or the new object; plus the parallel creation pipeline killed as a "
-        "whole process group at sampled instants (8 x 2 quick, 20 x 10 thorough). exhaustive per workload (quick: 7 workloads, "
-        "thorough: all 17). non-trivial = a distinct surviving state was probed; distinct = (workload, state hash)"
+        "whole process group at sampled instants (8 x 2 quick, 20 x 10 thorough). exhaustive per workload (quick: 10 workloads, "
+        "thorough: all 19). non-trivial = a distinct surviving state was probed; distinct = (workload, state hash)"
     )
     assumptions = [
         "crash model = process death at system-call boundaries (page cache survives): no torn or reordered writes",
@@ -113,8 +113,9 @@ class C08(Check):
 
     def cases(self, tier, seed):
         if tier == "quick":
-            for w in ("create_fresh", "create_overwrite", "create_buffered", "trees_fresh", "trees_other_edges", "measure_over_cached",
-                      "corrdata_files_over_old", "config_file_over_old"):
+            for w in ("create_fresh", "create_overwrite", "create_buffered", "trees_fresh", "trees_other_edges",
+                      "trees_forced_other_edges", "measure_over_cached", "corrfunc_file_fresh", "corrdata_files_over_old",
+                      "config_file_over_old"):
                 for s in range(4):
                     yield dict(workload=w, shard=s, of=4, stride=1, seed=seed)
             for s in range(2):
@@ -420,7 +421,7 @@ class C08(Check):
                     reader = readers.DataFrameReader(pd.DataFrame(world.new), ra_name="ra", dec_name="dec", weight_name="w",
                                                      redshift_name="z", chunksize=40)
                     ycat.write_patches(ref_dir, reader, world.cobj(), overwrite=False, progress=False, max_workers=1,
-                                       buffersize=65536)
+                                       buffersize=8)  # smaller than a patch: buffers are flushed while reading and at close
                     return
                 cats.create(ref_dir, world.new, centers=world.cobj(), chunksize=40, overwrite=(wname == "create_overwrite"))
 
@@ -442,9 +443,11 @@ class C08(Check):
                         judge=lambda p, v, r: judge_catalog(p, v, r, ("new",)))
         elif wname.startswith("trees_") or wname == "measure_over_cached":
             prior = {"trees_fresh": None, "trees_other_edges": "A", "trees_other_closed": "A", "trees_other_count": "A",
-                     "trees_forced": "A", "trees_unbinned_over_binned": "A", "measure_over_cached": "A"}[wname]
+                     "trees_forced": "A", "trees_forced_other_edges": "A", "trees_unbinned_over_binned": "A",
+                     "measure_over_cached": "A"}[wname]
             target = {"trees_fresh": "A", "trees_other_edges": "B", "trees_other_closed": "Aleft", "trees_other_count": "C",
-                      "trees_forced": "A", "trees_unbinned_over_binned": None, "measure_over_cached": "B"}[wname]
+                      "trees_forced": "A", "trees_forced_other_edges": "B", "trees_unbinned_over_binned": None,
+                      "measure_over_cached": "B"}[wname]
 
             def prepare():
                 c = cats.create(ref_dir, world.new, centers=world.cobj())
@@ -461,7 +464,7 @@ class C08(Check):
                     c.build_trees(None, max_workers=1)
                 else:
                     c.build_trees(cfgs[target].binning.edges, closed=cfgs[target].binning.closed,
-                                  force=(wname == "trees_forced"), max_workers=1)
+                                  force=wname.startswith("trees_forced"), max_workers=1)
 
             names = sorted({n for n in (prior, target, "A", "B") if n})
             spec = dict(prepare=prepare, workload=workload, references=catalog_refs(("new",), names),
